@@ -43,7 +43,12 @@ def scope_pairing(chk: Check) -> None:
     prog = chk.prog
     pushers = {}
     n = 0
+    from ..rules import subsumed_helpers
+    sub = subsumed_helpers(prog)
     for f in prog.all_funcs():
+        if id(f.node) in sub:
+            continue   # a private helper inlined at all its call sites: its statements are examined as part of each caller
+        f = prog.view(f)
         for c in calls_in_func(f):
             if isinstance(c.func, ast.Attribute) and norm(c.func.value) == 'PROCESS_STACK' and c.func.attr in ('set', 'reset'):
                 n += 1
